@@ -549,3 +549,43 @@ package hclsyntax
 //@ loopall invariant p.peeker == old(p.peeker) && len(p.peeker.IncludeNewlinesStack) == atentry(len(p.peeker.IncludeNewlinesStack))
 //@ loopall invariant srcBytes: forall q *byte :: { deref(q) } existed(q) ==> deref(q) == old(deref(q))
 //@ loop 2 invariant lastTok: len(p.peeker.Tokens) >= 1 ==> p.peeker.NextIndex <= len(p.peeker.Tokens) && lastRange == p.peeker.Tokens[p.peeker.NextIndex - 1].Range
+
+// ---- the template token parser never indexes out of range (unit U11e, C15) ----
+// verif:unit U11e props=C15
+// Representation invariant of the template parser: the position is inside the token list and the
+// list ends with the end token - so reading never runs past the end, and every index expression in
+// parseIf / parseFor (the first and last part of each branch) is in range, for every token
+// sequence. Not covered here (assumed away, "nosafety nil panic"): nil tokens / nil expressions
+// inside tokens, and the two "should never happen" panics, which depend on how parseTemplateParts
+// builds the token list. The precondition is assumed at parseRoot: parseTemplateParts always
+// appends the end token.
+// verif:pred tpWF(p *templateParser) = p != nil && 0 <= p.pos && p.pos < len(p.Tokens) && typeis(p.Tokens[len(p.Tokens) - 1], ptr(templateEndToken))
+// verif:func (*templateParser).Peek
+//@ nosafety nil
+//@ requires tpWF(p)
+//@ pure
+//@ ensures ret == p.Tokens[p.pos]
+// verif:func (*templateParser).Read
+//@ nosafety nil
+//@ requires tpWF(p)
+//@ assigns p
+//@ ensures tpWF(p) && ret == old(p.Tokens[p.pos]) && p.Tokens == old(p.Tokens)
+// verif:func (*templateParser).parseExpr
+//@ nosafety nil panic
+//@ requires tpWF(p)
+//@ ensures tpWF(p)
+// verif:func (*templateParser).parseIf
+//@ nosafety nil panic
+//@ requires tpWF(p)
+//@ ensures tpWF(p)
+//@ loop 1 invariant tpWF(p)
+// verif:func (*templateParser).parseFor
+//@ nosafety nil panic
+//@ requires tpWF(p)
+//@ ensures tpWF(p)
+//@ loop 1 invariant tpWF(p)
+// verif:func (*templateParser).parseRoot
+//@ nosafety nil
+//@ assumepre
+//@ requires tpWF(p)
+//@ loop 1 invariant tpWF(p)
